@@ -888,6 +888,16 @@ def spaces(tier, variant, seed):
         R.count("states", 40)
         return (kind, nbits)
 
+    # aliased calls are call sequences too: every (function, alias partition) pair of C05's table is executed here for what C04 states -
+    # each object well formed afterwards (size <= alloc, alloc field == block size, canonical zero), allocator contract, guard bytes
+    # (C05's own value comparison runs as well; a swap of limb pointers without the alloc fields only shows on aliased calls)
+    if variant in ("pin", "alloca-debug"):
+        from . import C05 as _c05
+        for s_ in _c05.spaces(tier, "pin", seed):
+            if s_.name == "alias_all_functions":
+                sp.append(Space("aliased_calls_well_formed", s_.blocks if not quick else s_.blocks, s_.cases, s_.one,
+                                "every (function, alias partition) pair (the C05 table): objects well formed after the call, allocator contract, guard bytes"))
+
     # text readers grow their token buffer by reallocation: every token length 1..N (each growth boundary is some length), followed by
     # EOF / white space / a non-digit, read under the recording allocator (exact-size contract, guard bytes right behind every block)
     TOKN = 1200 if quick else 4200
